@@ -201,6 +201,63 @@ def normalise(tree):
     return tree
 
 
+class _CallCanon(ast.NodeTransformer):
+    """f(a, p2=b, p3=c) -> f(a, b, c) for calls of package-level functions when the keywords name exactly the next
+    positional parameters in order (semantics preserving; rules then see one spelling of a call).  The float('inf')
+    spellings are unified as well."""
+
+    def __init__(self, sigs):
+        self.sigs = sigs
+
+    def visit_Call(self, n):
+        self.generic_visit(n)
+        name = None
+        if isinstance(n.func, ast.Name):
+            name = n.func.id
+        elif isinstance(n.func, ast.Attribute) and isinstance(n.func.value, ast.Name) and n.func.value.id == "EoN":
+            name = n.func.attr
+        if name == "float" and len(n.args) == 1 and isinstance(n.args[0], ast.Constant) and isinstance(n.args[0].value, str) \
+                and n.args[0].value.lower() in ("inf", "infinity", "+inf"):
+            n.args[0].value = "Inf"
+        ps = self.sigs.get(name)
+        if ps and not any(isinstance(a, ast.Starred) for a in n.args):
+            kws = list(n.keywords)
+            while kws and kws[0].arg is not None and len(n.args) < len(ps) and kws[0].arg == ps[len(n.args)]:
+                n.args.append(kws.pop(0).value)
+            # keywords given out of order: pull the one that names the next positional parameter
+            progress = True
+            while progress:
+                progress = False
+                if len(n.args) < len(ps):
+                    for k in kws:
+                        if k.arg == ps[len(n.args)]:
+                            n.args.append(k.value)
+                            kws.remove(k)
+                            progress = True
+                            break
+            n.keywords = kws
+        return n
+
+    def visit_Attribute(self, n):
+        self.generic_visit(n)
+        if isinstance(n.value, ast.Name) and n.value.id in ("np", "numpy", "math") and n.attr in ("inf", "Inf", "infty", "Infinity"):
+            return ast.copy_location(ast.Call(func=ast.Name(id="float", ctx=ast.Load()), args=[ast.Constant("Inf")], keywords=[]), n)
+        return n
+
+
+def canonicalise_calls(trees):
+    sigs = {}
+    for m, t in trees.items():
+        for st in t.body:
+            if isinstance(st, ast.FunctionDef):
+                a = st.args
+                if a.vararg is None:
+                    sigs.setdefault(st.name, [x.arg for x in a.posonlyargs + a.args])
+    for m, t in trees.items():
+        _CallCanon(sigs).visit(t)
+        ast.fix_missing_locations(t)
+
+
 class Repo:
     def __init__(self, root=None):
         self.root = root or REPO
@@ -211,6 +268,9 @@ class Repo:
         self.classes = {}      # (module, name) -> ast.ClassDef
         self.methods = {}      # (module, class, name) -> Func
         h = hashlib.sha256()
+        import warnings
+        from . import alpha
+        trees = {}
         for m in MODULES:
             path = os.path.join(self.root, "EoN", m + ".py")
             try:
@@ -219,19 +279,20 @@ class Repo:
             except OSError as e:
                 raise AnalysisError("cannot read %s: %s" % (path, e))
             h.update(text.encode())
-            import warnings
             with warnings.catch_warnings():
                 warnings.simplefilter("ignore")
                 try:
                     tree = ast.parse(text, filename=path)
                 except SyntaxError as e:
                     raise AnalysisError("cannot parse %s: %s" % (path, e))
-            tree = normalise(tree)
-            from . import alpha
-            self.renamed = getattr(self, "renamed", 0) + alpha.restore_names(tree, m)
-            self.mods[m] = tree
+            trees[m] = normalise(tree)
             self.src[m] = text.split("\n")
-            self._index(tree, m)
+        canonicalise_calls(trees)
+        self.renamed = 0
+        for m in MODULES:
+            self.renamed += alpha.restore_names(trees[m], m)
+            self.mods[m] = trees[m]
+            self._index(trees[m], m)
         self.digest = h.hexdigest()
 
     def _index(self, tree, m):
